@@ -147,8 +147,8 @@ class PackFile:
 
 def unify_path(path: str) -> str:
     """Convert paths to a unique form."""
-    path = os.path.normpath(path).casefold().replace('\\', '/')
-    if '../' in path:
+    path = os.path.normpath(path.replace('\\', '/')).casefold().replace('\\', '/')
+    if path == '..' or path.startswith('../'):
         raise ValueError('Path tried to escape root!')
     return path.lstrip('/')
 
